@@ -934,6 +934,14 @@ func (e *Engine) noteMapMade(fr *frame, m value) {
 	}
 }
 
+// noteHostDep: a value that depends on the host machine (its time zone) entered the computation
+func (e *Engine) noteHostDep(what string) {
+	if e.wiring > 0 {
+		return
+	}
+	e.memWrites["host dependency: "+what] = true
+}
+
 func (e *Engine) noteMapWrite(fr *frame, m value) {
 	if e.ctorDepth > 0 || e.wiring > 0 || len(e.keeperMaps) == 0 {
 		return
@@ -969,9 +977,14 @@ func (e *Engine) finishPath() {
 		}
 		sort.Strings(ws)
 		for _, w := range ws {
+			if strings.HasPrefix(w, "host dependency: ") {
+				e.assertExcept(TBool(false), "C19 determinism: "+strings.TrimPrefix(w, "host dependency: ")+" (two nodes in different time zones compute different values)", "", nil)
+				continue
+			}
 			e.assertExcept(TBool(false), "C19 restart: "+w+" (state kept in a keeper's process memory is lost by a restart while the store is not)", "", nil)
 		}
 		e.assertExcept(TBool(true), "C19 restart: no map owned by a keeper object is written by message or block processing", "", nil)
+		e.assertExcept(TBool(true), "C19 determinism: no calendar field or formatted text of a time in the host's local zone is computed", "", nil)
 	}
 	if e.res.KeepPathObs {
 		po := PathObs{PC: e.exactStrings(), Decls: append([]string{}, e.decls...), Obs: map[string]string{}}
